@@ -29,7 +29,7 @@ use isograph_schema::{
     WrappedSelectionMapSelection, client_scalar_selectable_selection_set_for_parent_query,
     create_merged_selection_map_for_field_and_insert_into_global_map,
     current_target_merged_selections, flattened_entity_named, get_reachable_variables,
-    initial_variable_context, selectable_named,
+    initial_variable_context, select_typename_in_empty_selection_sets, selectable_named,
 };
 use prelude::Postfix;
 use std::collections::BTreeSet;
@@ -121,6 +121,9 @@ pub(crate) fn generate_entrypoint_artifacts_with_client_scalar_selectable_traver
     let parent_object_entity = flattened_entity_named(db, entrypoint.parent_entity_name)
         .expect_entity_to_exist(entrypoint.parent_entity_name)
         .lookup(db);
+
+    let mut merged_selection_map = merged_selection_map;
+    select_typename_in_empty_selection_sets(&mut merged_selection_map);
 
     let WrapMergedSelectionMapResult {
         root_entity,
